@@ -280,6 +280,14 @@ func makeScenario(rng *rand.Rand, idx int, thorough bool) *scenario {
 		if sc.s >= 65536 {
 			n = []int{1, sc.s - 1, sc.s, sc.s + 1, 2*sc.s + 5, 70000}[rng.Intn(6)]
 		}
+		if idx%17 == 8 && i == 0 {
+			// a length that is an exact multiple of 1 MiB with a slice size that does not divide it (chunked readers:
+			// the last slice ends exactly where a read buffer ends)
+			n = []int{1 << 20, 2 << 20}[(idx/17)%2]
+			if sc.s < 512 || (1<<20)%sc.s == 0 {
+				sc.s = 2000
+			}
+		}
 		if total+n > 3000000 {
 			n = 1 + rng.Intn(1000)
 		}
@@ -537,6 +545,13 @@ func runScenario(c *common, lg *tracelog.Log, rng *rand.Rand, idx int, sc *scena
 	defer os.RemoveAll(dir)
 	bname := p2Bases[idx%len(p2Bases)]
 	a, err := buildArch(dir, sc.names, sc.prot, sc.s, sc.r, sc.g, bname)
+	if cr, ok := err.(*createRefused); ok {
+		// Create refused a legitimate set: a judged event, not a harness failure
+		lg.Emit(tracelog.M{"ev": "bigop", "op": "create", "scn": idx, "desc": sc.desc, "created": []string{}, "created_unexpected": []string{},
+			"changed_by_create": []string{}, "res": tracelog.M{"err": "refused", "errtext": cr.err.Error()}, "writes": []string{}, "outside": []string{}, "changed_ok": true,
+			"n": 0, "nsurv": 0, "nocc": 0, "exps": []int{}, "r_requested": sc.r, "blocks_beside_index": 0, "stale": false})
+		return nil
+	}
 	if err != nil {
 		return err
 	}
